@@ -297,6 +297,7 @@ let run_trace_block () =
               | _ -> failwith "bad batch") in
             p_import w (nh = "1") (twice = "1") (fs = "1") (List.map batch (String.split_on_char '|' spec))
         | ["import"; nh; twice; fs] -> p_import w (nh = "1") (twice = "1") (fs = "1") []
+        | ["addpack"; id; nh; twice; fs] -> p_add_to_pack w (z_of_int (int_of_string id)) [] (nh = "1") (twice = "1") (fs = "1")
         | ["repack"; id; objs] ->
             let po s = (match String.split_on_char ',' s with
               | [k; blob; c; sz] -> { okey = n_of_int (int_of_string k); oblob = hex_to_bytes blob; ocomp = (c = "1"); osize = nat_of_int (int_of_string sz) }
